@@ -5,9 +5,9 @@
 // Model: new = old[..ds] ++ inserted(ins tokens) ++ old[de..]   (ds <= de <= n_old)
 //   * surviving old token i keeps index i (i < ds) or moves to i + ins - (de - ds) (i >= de)
 //   * the first unchanged token behind the window sits at ds + ins in the new stream
-//   * a non-empty old range R is deleted  iff every token of R lies in [ds, de)
-//   * the window overlaps R iff they share a token; an empty window (pure insertion) counts iff
-//     it lies strictly inside R (documented: "except at the very start")
+//   * what reuse soundness needs from the predicates (only this direction is asserted, see below):
+//     a deleted token inside R, or tokens inserted strictly inside R, must make overlaps(R) true;
+//     every position behind the first unchanged token must be out_of_range; deletes is total
 
 fn sym_change(max: usize) -> (usize, usize, usize, usize) {
     let n: usize = kani::any();
